@@ -89,6 +89,11 @@ def _seams_off():
         u._process_start_wrapper.__wrapped__ = _ORIG["wrapped"]
 
 
+# the two argument values of the `cached` probe: distinct tuples with EQUAL hashes (hash(-1) == hash(-2))
+CARGS = (-1, -2)
+assert hash(((-1,), ())) == hash(((-2,), ()))
+
+
 class _Silent:
     """Reply timing for one get: the terminal stays silent until the query has timed out (the last
     alternative of VTty's menu); the replies stay in transit."""
@@ -134,6 +139,7 @@ class Impl:
         self.e = env0
         self.runs = {"tsc": 0, 0: 0, 1: 0}
         self.fail_next = False      # the next run of a probe body raises ProbeFailure (once)
+        self.resize_in_body = None  # environment the tsc probe body switches to while it runs
         if Impl._probes is None:
             Impl._probes = self._make_probes()
         self.tsc, self.cached = Impl._probes
@@ -160,10 +166,16 @@ class Impl:
                 me.fail_next = False
                 raise ProbeFailure("tsc")
             t = me.tty
-            return M.tval(me.e, M.Env(t.cols, t.rows, t.xpx, t.ypx, None, me.envs[me.e].q_area))
+            v = M.tval(me.e, M.Env(t.cols, t.rows, t.xpx, t.ypx, None, me.envs[me.e].q_area))
+            if me.resize_in_body is not None:
+                # the terminal is resized while the memoized body runs: the value belongs to the old size
+                j, me.resize_in_body = me.resize_in_body, None
+                me.apply_env(j)
+            return v
 
         def cprobe_body(arg):
             me = Impl._current
+            arg = CARGS.index(arg)
             me.runs[arg] += 1
             if me.fail_next:
                 me.fail_next = False
@@ -261,10 +273,20 @@ class Impl:
             u._process_start_wrapper(types.SimpleNamespace())
         elif k == "tsc_inv":
             self.tsc._invalidate_terminal_size_cache()
+        elif k == "tsc_resizing":
+            n = self.runs["tsc"]
+            self.resize_in_body = op[1]
+            try:
+                v = self.tsc()
+            except ProbeFailure:
+                v = "raised"
+            finally:
+                self.resize_in_body = None
+            return (v, self.runs["tsc"] - n)
         elif k == "cached":
             n = self.runs[op[1]]
             try:
-                v = self.cached(op[1])
+                v = self.cached(CARGS[op[1]])
             except ProbeFailure:
                 v = "raised"
             return (v, self.runs[op[1]] - n)
@@ -329,7 +351,8 @@ def alphabet(group, nenv):
     b = [["colors", -1], ["colors", 1], ["name"], ["render"]]
     if group == "query-memos3":
         return res + qu + b + [["colors", 0]]
-    c = [["tsc"], ["tsc_inv"], ["cached", 0], ["cached", 1], ["cached_inv"], ["fail_next"]]
+    c = [["tsc"], ["tsc_inv"], ["cached", 0], ["cached", 1], ["cached_inv"], ["fail_next"]] + \
+        [["tsc_resizing", i] for i in range(nenv)] * (nenv > 1)
     if group == "cell":
         return res + sw + qu + a + [["cell_size_int", k, "kbd"] for k in (1, 2, 5, 9, 13, 40, 67)] + \
             [["cell_size_int", k, "termios"] for k in (4, 66)]
@@ -392,7 +415,7 @@ def _expand(histories):
                 if mach.broken:
                     raise world.HarnessError(f"C15: history {h} of search {name} fails on replay")
                 k0 = mach.key()
-            if op[0] == "resize" and mach.impl.e == op[1]:
+            if op[0] in ("resize", "tsc_resizing") and mach.impl.e == op[1]:
                 continue
             if op[0] == "cell_size_int" and envs[mach.impl.e].xpx and envs[mach.impl.e].ypx:
                 continue        # the query path (where a get can be interrupted) needs an ioctl without pixels
@@ -488,6 +511,7 @@ def _opname(op):
 
 
 # ---------------------------------------------------------------------------------- thread part
+TARGS = {0: -1, 1: -2}      # thread part: arguments 0 / 1 are passed as -1 / -2 (distinct, equal hashes)
 PROBE_NAMES = ("cprobe_body", "tprobe_body", "tprobe_none_body")
 
 
@@ -571,7 +595,7 @@ def t_execute(spec, prefix=()):
         for i, c in enumerate(calls):
             k = c[0]
             if k == "c":
-                r = fns[pid]["c"](c[1])
+                r = fns[pid]["c"](TARGS.get(c[1], c[1]))
             elif k == "t" or k == "tn":
                 r = fns[pid][k]()
             elif k == "ti":
@@ -650,6 +674,9 @@ def t_judge(col, spec, ch, s, model, tty, st, case=None):
         if len(v) > 1 and not inval:
             viol("different-values", f"concurrent first calls of {key} returned different values {sorted(v)}")
     for tag, i, k, arg, r in st.results:
+        if k == "c" and r is not None and r[1] != TARGS.get(arg, arg):
+            viol("cached-wrong-entry", f"{tag}: cached probe({TARGS.get(arg, arg)}) returned {r}, the value memoized "
+                 f"for another argument tuple")
         if k == "f" and r != ("#ffffff", "#000000"):
             viol("fg-bg-value", f"{tag}: re-decorated get_fg_bg_colors returned {r}")
         if k == "s" and r != M.fresh_cell(M.ENVS[0], True, False):
